@@ -32,6 +32,19 @@ func (a *Analyzer) TrackObj(st *State, t Term, pt types.Type) {
 	}
 }
 
+// TrackField additionally tracks the object a pointer field of the receiver points to
+// (e.g. Header.Property); returns the pointer term.
+func (a *Analyzer) TrackField(st *State, recv Term, pt types.Type, field string) *Ptr {
+	v, ft := a.LoadField(st, recv, pt, field)
+	p, ok := v.(*Ptr)
+	if !ok || ft == nil {
+		return nil
+	}
+	p.NilUnk = false
+	a.TrackObj(st, p, ft)
+	return p
+}
+
 type idCollector struct {
 	ids  map[int]bool
 	seen map[interface{}]bool
